@@ -96,4 +96,14 @@ class HH(Channel):
 
 
 def _vtrap(x, y):
-    return x / (save_exp(x / y) - 1.0)
+    """`x / (exp(x / y) - 1)`, continued through its removable singularity at `x = 0`.
+
+    Close to `x = 0` the quotient is `0 / 0`; there, the first-order expansion
+    `y * (1 - x / y / 2)` is used (as in NEURON's `hh.mod`). The denominator is made
+    safe in the unused branch such that gradients remain finite as well.
+    """
+    small = jnp.abs(x / y) < 1e-6
+    x_safe = jnp.where(small, y, x)
+    return jnp.where(
+        small, y * (1.0 - x / y / 2.0), x_safe / (save_exp(x_safe / y) - 1.0)
+    )
